@@ -962,7 +962,7 @@ func Check(propID, tier string) int {
 		}
 		wave = append(wave, pr)
 	}
-	fatalBudget := 40 // confirmations of process deaths per batch
+	fatalBudget := 40                      // confirmations of process deaths per batch
 	confirmedDeaths := map[string]string{} // exit code + journal status + call -> confirmed signature
 	for len(wave) > 0 {
 		for _, pr := range wave {
